@@ -542,7 +542,10 @@ def rep(n, node):
     return ["rep", int(n), node]
 
 
-def iota(n, start, val=b""):
+def iota(n, start, val=b"", pre=b""):
+    """n distinct elements: pre + int16(start + i) + val"""
+    if pre:
+        return ["iota", int(n), int(start), bytes(val).hex(), bytes(pre).hex()]
     return ["iota", int(n), int(start), bytes(val).hex()]
 
 
@@ -559,9 +562,10 @@ def expand(node):
         return unit * node[1]
     if kind == "iota":
         val = bytes.fromhex(node[3])
-        if node[1] * (4 + len(val)) > MAX_INPUT:
+        pre = bytes.fromhex(node[4]) if len(node) > 4 else b""
+        if node[1] * (4 + len(val) + len(pre)) > MAX_INPUT:
             raise ValueError("recipe expands beyond MAX_INPUT")
-        return b"".join(b"\x00\x04" + struct.pack(">h", ((node[2] + i + 32768) & 0xffff) - 32768) + val for i in range(node[1]))
+        return b"".join(pre + b"\x00\x04" + struct.pack(">h", ((node[2] + i + 32768) & 0xffff) - 32768) + val for i in range(node[1]))
     raise ValueError("bad recipe node %r" % (kind,))
 
 
@@ -1108,6 +1112,18 @@ def crafted_table(full=True):
                     bodies.append(rep(n, raw((enc_int_as(T_I8, 1) if tid == T_MAP else b"") + H(ConnectionStats.type_id) + enc_int(0))))
                 for body in bodies:
                     yield ("big-container", cat(raw(H(tid) + enc_int(declared)), body), ["loadb"])
+    # hash containers (set elements / map keys) of many distinct composite values: registered objects and enum-free
+    # wrappers whose one field holds a scalar or a further container.  Insertion must stay linear in the element count
+    wraps = [("seq", H(T_SEQ) + enc_int(1), b""), ("set", H(T_SET) + enc_int(1), b""), ("map", H(T_MAP) + enc_int(1), H(T_NULL)),
+             ("int", b"", b""), ("obj", H(VpC14NoAnno.type_id) + enc_int(1), b"")]
+    for tid in (T_SET, T_MAP):
+        for cls in ((VpC14NoAnno, VpC14Node, CHALL_ID) if full else (VpC14NoAnno, CHALL_ID)):
+            cid = cls if isinstance(cls, int) else cls.type_id
+            for wname, wpre, wsuf in wraps:
+                for n in ((1024, 4096, 16384) if full else (4096,)):
+                    pre = H(cid) + enc_int(1) + wpre
+                    suf = wsuf + (H(T_NULL) if tid == T_MAP else b"")
+                    yield ("big-hash-container", cat(raw(H(tid) + enc_int(n)), iota(n, -8000, suf, pre)), ["loadb"])
     for tid in (T_STR, T_BYTES):
         for n in (2 ** 20 - 1, 2 ** 20, 2 ** 20 + 1):
             for declared in (n, 2 ** 20, 2 ** 20 + 1, -1):
@@ -1381,13 +1397,13 @@ def plan(tier):
     specs = []
     if tier == "quick":
         for i in range(5):
-            specs.append({"part": "wire", "n": 5000, "i": i})
+            specs.append({"part": "wire", "n": 3500, "i": i})
         for i in range(2):
-            specs.append({"part": "wire", "site": True, "n": 1500, "i": i})
+            specs.append({"part": "wire", "site": True, "n": 1000, "i": i})
         for i in range(2):
             specs.append({"part": "mut", "n": 300, "i": i})
-        for k in range(2):
-            specs.append({"part": "crafted", "k": k, "of": 2})
+        for k in range(3):
+            specs.append({"part": "crafted", "k": k, "of": 3})
         specs.append({"part": "firstid", "range": [0, 65536]})
         for i in range(4):
             specs.append({"part": "atheris", "i": i, "seeded": i % 2 == 1, "runs": 200000, "max_time": 45, "fallback_n": 4000})
